@@ -22,7 +22,10 @@ arbitrary nesting of
   longer than `folded_wrap_chars`), `Some`, ordinary newtype structs, block sequences, tuples and
   tuple structs, block mappings / structs (known or unknown length) whose keys are safe strings or
   COMPOSITE — sequences, mappings, variants with data of the fragment, written `? key` / `: value` —
-  and pairwise different as data, unit, newtype, tuple and struct variants (also without fields)
+  and pairwise different as data, unit, newtype, tuple and struct variants (also without fields);
+  string keys and names of variants with data of ANY length: a text longer than 1024 characters (the limit of
+  an implicit key, which the reference reader enforces) is written as an explicit key `? key` / `: value`
+  (fix of `long-implicit-key`; `fitsImplicit` in the layout, `long_key_roundtrip`, `long_key_any_length`)
 
 under EVERY `indent_step ≥ 1` (since fix 995e25e the layout is right for every step), `compact_list_indent`
 on or off (fixes 8740963 fb15f4e), `yaml_12` on or off (the prologue `%YAML 1.2` + `---`, then the same
@@ -441,6 +444,78 @@ theorem variant_key_yaml11_bool_regression :
     readDoc "- \"No\":\n    a: 1\n- \"on\":\n    - 1\n    - 2\n".toList =
       some (erase (.seq [SVal.structVariantOf "No".toList [("a".toList, .int 1)], .tupleVariant "on".toList [.int 1, .int 2]])) :=
   ⟨rfl, by decide +kernel, by decide +kernel, rfl, by decide +kernel⟩
+
+/-! ### keys too long for an implicit key (fix of `long-implicit-key`) -/
+
+/-- the string of `n` characters `c` -/
+def rep (c : Char) (n : Nat) : List Char := List.replicate n c
+
+set_option maxRecDepth 100000 in
+/-- (regression, fix of `long-implicit-key`) YAML limits an implicit key `key: value` to 1024 characters (the reference
+reader has the rule now: `maxImplicitKey`, validated against the real parser).  A key of 1024 characters is still written
+as an implicit key and reads back; a key of 1025 characters is written as an explicit key `? key` / `: value` and reads
+back (it used to be written `key: value`, which no YAML parser accepts: last clause, the text the emitter used to
+write is rejected by the reader as by the real parser). -/
+theorem long_key_roundtrip :
+    emit {} implFns (.map true [(.str (rep 'k' 1024), .int 1)]) = .ok (rep 'k' 1024 ++ ": 1\n".toList) ∧
+    readDoc (rep 'k' 1024 ++ ": 1\n".toList) = some (erase (.map true [(.str (rep 'k' 1024), .int 1)])) ∧
+    emit {} implFns (.map true [(.str (rep 'k' 1025), .int 1)]) = .ok (['?', ' '] ++ rep 'k' 1025 ++ "\n: 1\n".toList) ∧
+    readDoc (['?', ' '] ++ rep 'k' 1025 ++ "\n: 1\n".toList) = some (erase (.map true [(.str (rep 'k' 1025), .int 1)])) ∧
+    readDoc (rep 'k' 1025 ++ ": 1\n".toList) = none :=
+  ⟨by rfl, by decide +kernel, by rfl, by decide +kernel, by decide +kernel⟩
+
+set_option maxRecDepth 100000 in
+/-- (regression, same fix) the limit counts the text AS WRITTEN (quotes and escapes included): a key of 1022 characters
+that has to be quoted (it ends with `:`) makes a text of 1024 characters and stays implicit, one of 1023 characters is
+written as an explicit key; as the first key of a mapping inside a sequence the `: ` line goes under the `?` -/
+theorem long_key_quoted_regression :
+    emit {} implFns (.seq [.map true [(.str (rep 'k' 1021 ++ [':']), .int 1)]]) =
+      .ok ("- \"".toList ++ rep 'k' 1021 ++ ":\": 1\n".toList) ∧
+    emit {} implFns (.seq [.map true [(.str (rep 'k' 1022 ++ [':']), .int 1), (.str "z".toList, .int 2)]]) =
+      .ok ("- ? \"".toList ++ rep 'k' 1022 ++ ":\"\n  : 1\n  z: 2\n".toList) ∧
+    readDoc ("- ? \"".toList ++ rep 'k' 1022 ++ ":\"\n  : 1\n  z: 2\n".toList) =
+      some (erase (.seq [.map true [(.str (rep 'k' 1022 ++ [':']), .int 1), (.str "z".toList, .int 2)]])) :=
+  ⟨by rfl, by rfl, by decide +kernel⟩
+
+/-- the witness of `long_variant_name_regression` -/
+def longVariantValue : SVal :=
+  SVal.struct [("k".toList, .seq [.tupleVariant (rep 'K' 1025) [.int 1, .int 2]]), ("m".toList, .newtypeVariant (rep 'K' 1025) (.int 3))]
+
+set_option maxRecDepth 100000 in
+/-- (regression, same fix) the name of an enum variant with data is the key of `Variant: payload`: a name longer than
+1024 characters is written as an explicit key too, the payload after `: ` under it — after `- ` and after `key:` -/
+theorem long_variant_name_regression :
+    emit {} implFns longVariantValue =
+      .ok ("k:\n  - ? ".toList ++ rep 'K' 1025 ++ "\n    : - 1\n      - 2\nm:\n  ? ".toList ++ rep 'K' 1025 ++ "\n  : 3\n".toList) ∧
+    readDoc ("k:\n  - ? ".toList ++ rep 'K' 1025 ++ "\n    : - 1\n      - 2\nm:\n  ? ".toList ++ rep 'K' 1025 ++ "\n  : 3\n".toList) =
+      some (erase longVariantValue) :=
+  ⟨by rfl, by decide +kernel⟩
+
+/-- (T) a string key of ANY length round-trips (instance of `emit_roundtrip_all_strings_partial`: keys of every length are
+inside the proved fragment, the long ones through the explicit-key layout) -/
+theorem long_key_any_length (n : Nat) (c : Char) (v : SVal) (hv : inFragP (allStrPred {}) v = true) :
+    ∃ t, emit {} implFns (.map true [(.str (rep c n), v)]) = .ok t ∧ readDoc t = some (.map [(.str (rep c n), erase v)]) := by
+  have := emit_roundtrip_all_strings_partial (o := {}) ⟨by decide, rfl⟩ (.map true [(.str (rep c n), v)])
+    (by
+      have hk : (allStrPred {}).key (rep c n) = true := by simp [allStrPred, implPred]
+      simp [inFragP, inFragEntriesP, keyOk, keyOf, hasDupKey, eraseEntries, hv, hk])
+  simpa [erase, eraseEntries] using this
+
+/-- … and so does the name of a variant with data, of any length -/
+theorem long_variant_name_any_length (n : Nat) (c : Char) (v : SVal) (hv : inFragP (allStrPred {}) v = true) :
+    ∃ t, emit {} implFns (.newtypeVariant (rep c n) v) = .ok t ∧ readDoc t = some (.map [(.str (rep c n), erase v)]) := by
+  have := emit_roundtrip_all_strings_partial (o := {}) ⟨by decide, rfl⟩ (.newtypeVariant (rep c n) v)
+    (by
+      have hn : (allStrPred {}).name (rep c n) = true := by simp [allStrPred, implPred, boolRisk]
+      simp [inFragP, hv, hn])
+  simpa [erase] using this
+
+/-- the layout function at a long key: `? key`, `: value` (the value laid out like a sequence item after its dash) -/
+example : (layRoot (blkToks {} implFns) 2 false (.map true [(.str (rep 'k' 1025), .seq [.int 1, .int 2])])).map (·.indent) = [0, 0, 2] ∧
+    ((layRoot (blkToks {} implFns) 2 false (.map true [(.str (rep 'k' 1025), .seq [.int 1, .int 2])])).drop 1).map (·.text) =
+      [": - 1".toList, "- 2".toList] := by decide +kernel
+example : fitsImplicit (rep 'k' 1024) = true ∧ fitsImplicit (rep 'k' 1025) = false := by decide +kernel
+example : inFragP (allStrPred {}) longVariantValue = true := by decide +kernel
 
 /-! ## counterexample (F): the defect class still present -/
 
